@@ -104,6 +104,10 @@ def programs():
     add("map-element-branch-cannot-be-chosen", prog({"k": "apply", "n": 91, "fn": "f1", "src": {"k": "map", "iters": [["B", C(["s", 1])]], "body": {
         "k": "case", "n": 92, "disp": O("B", dk="const", dv=-1), "cases": [["is_int", O("A", dk="const", dv=0)]],
         "default": {"k": "bind", "n": 93, "src": O("D"), "table": [["b", O("C", dk="const", dv="c")]], "else": O("A", dk="const", dv=1)}}}}))
+    # a dotted dispatch key that is absent while its section is present: the other members of that section are nobody's business
+    add("dotted-dispatch-absent-section-present", prog({"k": "tuple", "items": [DS(1), DS(2)]},
+                                                       d1={"args": [["a", O("A", dk="const", dv=0)]], "dispatch": "S.X", "overloads": [["x", {"args": [["b", O("B", dk="const", dv=1)]]}]]},
+                                                       d2={"args": [["inner", DS(1)], ["c", O("C", dk="const", dv=0)]], "dispatch": O("T.X", dk="const", dv="none"), "overloads": [["y", {"expr": O("A", dk="const", dv="ya")}]]}))
     # a key that is present with a null value is PRESENT: the default (and what the default reads) plays no part
     add("null-valued-option", prog({"k": "tuple", "items": [DS(1), {"k": "cached", "spec": O("C", dk="tmpl", dv="{S.X} t")}]},
                                    d1={"args": [["a", O("A", dk="spec", dv=O("B"))], ["c", O("E", dk="spec", dv=DS(2))]]},
